@@ -146,6 +146,9 @@ func Menu(s *Schema, typeName string, level int) []*Sel {
 	}
 	var out []*Sel
 	addField := func(fd *FieldDef) {
+		if fd.Name == "pick" || fd.Name == "rev" || fd.Name == "tri" {
+			return // argument-heavy fields are exercised by dedicated documents
+		}
 		sel := F(fd.Name)
 		if fd.Name == "echo" {
 			sel = sel.WithArgs(Arg{"s", "x"}, Arg{"b", true})
